@@ -532,6 +532,7 @@ def analyse(case):
         exp = {}        # path -> node
         hid = {}        # path -> why (entries the view must NOT show because of a hide pattern)
         tol = {}        # path -> set of tolerated renderings
+        opt = set()     # expected paths that may also be absent (the documentation is silent)
         for p, i in info.items():
             e = i['entry']
             if i['excluded']:
@@ -540,6 +541,10 @@ def analyse(case):
                 dropped_deep += (v == 'iso')
                 continue
             h = hidden_by(pats, p) if pats else None
+            if e['kind'] != 'dir' and i['depth'] > 7 and not o['rr'] and level < 4:
+                # an entry inside a level-8 directory: legal by ECMA-119 6.8.2.1, refused by the library
+                # ("Directory levels too deep"); a tool may keep it or drop it with a message, it may not crash
+                opt.add(p)
             if e['kind'] == 'symlink':
                 if not (o['rr'] or o['udf']):
                     continue                      # documented: "Symlink ... ignored"
@@ -562,7 +567,7 @@ def analyse(case):
                     hid[p] = 'file' if h == 'self' else 'below-hidden-dir'
                     continue
                 exp[p] = ('file', content_bytes(e['content']))
-        views[v] = {'expected': exp, 'hidden': hid, 'tolerated': tol}
+        views[v] = {'expected': exp, 'hidden': hid, 'tolerated': tol, 'optional': opt & set(exp)}
     # classification
     classes = ['level:%d' % level, 'rr:%s' % (o['rr'] or 'none'), 'views:%d' % len(want)]
     for k in ('joliet', 'udf', 'dups'):
@@ -1165,10 +1170,14 @@ def compare_view(case, a, v, got, fail, col):
             par = p.rpartition('/')[0]
             if par and par not in got:
                 continue            # reported once, for the topmost missing directory
+            if p in vw['optional']:
+                if col is not None:
+                    col.bump('measured:%s-entry-in-level-8-directory-dropped' % v)
+                continue
             sibs_extra = [x for x in extra if x.rpartition('/')[0] == par and x not in info]
             what = 'name-altered' if sibs_extra else 'missing'
             q = qual(i['name'], kind == 'dir' and i['deep'])
-            if kind == 'dir' and p not in a['has_children'] and q == 'plain':
+            if kind == 'dir' and p not in a['has_children'] and q != 'deep':
                 q = 'empty-dir'
             dc = dup_context(a, p)
             sig = 'C20/%s/%s/%s/%s' % (v, what, kind, q)
@@ -1310,10 +1319,12 @@ def check_image(case, a, img, fail):
         e = info[p]['entry']
         if e['kind'] == 'file':
             (hid_self if why == 'file' else opt_dir)[content_bytes(e['content'])] += 1
+    opt_files = collections.Counter(n[1] for p, n in exp.items() if n[0] == 'file' and p in a['views']['iso']['optional'])
+    deep_files = collections.Counter(n[1] for p, n in exp.items() if n[0] == 'file' and info[p]['deep'] and not o['rr'])
     for b in set(want_files) | set(got_files):
         w, g = want_files[b], got_files[b]
         slack = nsym if b == b'' else 0
-        if w <= g <= w + slack:
+        if w - opt_files[b] <= g <= w + slack:
             continue
         if g > w and opt_dir[b] and g <= w + slack + opt_dir[b]:
             fail('C20/iso/hide-not-applied/below-hidden-dir', 'hide patterns (documented: the contents of a matching directory are hidden)',
@@ -1325,6 +1336,11 @@ def check_image(case, a, img, fail):
             fail('C20/iso/hide-not-applied/file' + ('/dup-linked' if linked else ''), 'hide patterns',
                  'ISO view: %d file records hold content %s, %d expected; %d such files match -hide %s'
                  % (g, short(b[:16]), w, hid_self[b], short(o['hide'])))
+            continue
+        if g < w and w - g <= deep_files[b]:
+            fail('C20/iso/file-count/missing/below-deep-dir', 'every source file appears exactly once (level 4: nesting is not limited)',
+                 'ISO view: content %s (%d bytes) is held by %d source files but by %d ISO file records; %d of them lie below a directory '
+                 'nested deeper than 7' % (short(b[:16]), len(b), w, g, deep_files[b]))
             continue
         dc = None
         if o['dups']:
@@ -1401,12 +1417,16 @@ def compare_iso_extract(a, img, got, fail):
     if s['pvd'] is None:
         return
     want = {}
+    placeholders = set()
     for path, recs in walk_iso(img, s['pvd']):
         for r in recs:
             p = (path.rstrip('/') + '/' + r['ident'].decode('utf-8', 'surrogateescape')).lstrip('/')
             want[p] = ('dir',) if r['isdir'] else ('file', img[r['extent'] * SEC:r['extent'] * SEC + r['size']])
-    # relocated directories appear both as a placeholder file and below RR_MOVED; compare paths only there
+            if r['relocated']:
+                placeholders.add(p)
     for p, n in sorted(want.items()):
+        if p in placeholders:
+            continue    # placeholder of a relocated directory (the directory itself is below RR_MOVED): silent
         if p not in got:
             fail('C20/iso-extract/missing/%s' % n[0], 'extract-files -path-type iso shows the ISO9660 view',
                  'ISO record %s (%s) was not extracted' % (short(p), n[0]))
@@ -1416,7 +1436,7 @@ def compare_iso_extract(a, img, got, fail):
             fail('C20/iso-extract/mismatch/%s' % n[0], 'extract-files -path-type iso shows the ISO9660 view',
                  'ISO record %s extracted as %s with different content' % (short(p), got[p][0]))
     for p in sorted(got):
-        if p not in want:
+        if p not in want and p not in placeholders:
             fail('C20/iso-extract/unexpected/%s' % got[p][0], 'extract-files -path-type iso shows the ISO9660 view',
                  'extracted %s has no ISO record' % short(p))
 
